@@ -119,7 +119,9 @@ Kinds == {"pub1", "pub2", "sub", "unsub", "ping", "connect", "disconnect", "rcon
 \* connection and with ANOTHER context than the call that produced the handle (seeded change c11h); for the model it is
 \* location waitComp of a new call
 LocsOf(k) == CASE k = "pub2" -> {"atRLock", "waitAck", "waitComp", "retryWaitComp"}
-               [] k \in {"pub1", "sub", "unsub", "ping"} -> {"atRLock", "waitAck", "handlerBusy"}
+               \* inWrite: the request is still inside Transport.Write (a peer that stopped reading) when the application calls
+               \* Close(): closing must not wait for that write (it is what ends it), seeded change c11j
+               [] k \in {"pub1", "sub", "unsub", "ping"} -> {"atRLock", "waitAck", "handlerBusy", "inWrite"}
                [] k = "connect" -> {"waitConnack", "connectWrite"}
                [] k = "disconnect" -> {"atRLock", "handlerBusy", "fromHandler"}
                [] k = "rconnect" -> {"dialFailing", "waitConnack"}
@@ -132,6 +134,7 @@ Applicable(k, l, cause) ==
   /\ (k = "rdisconnect" => cause = "none")
   /\ (k = "rconnect" => cause \in {"ctxCancel", "ctxDeadline"})
   /\ (l = "atRLock" => cause \in {"ctxCancel", "ctxDeadline", "localClose", "peerClose"})
+  /\ (l = "inWrite" => cause = "localClose")
   /\ (l = "retryWaitComp" => cause \in {"ctxCancel", "ctxDeadline", "localClose", "peerClose", "malformed"})
   \* while the application's handler keeps the reader goroutine busy no acknowledgement is dispatched and
   \* Done() cannot be closed: a waiting call is released by its context only; Disconnect itself does not
